@@ -203,6 +203,7 @@ pub fn modes(seed: u64, thorough: bool) -> Vec<BuildSpec> {
     for (i, (cat, t)) in unicode_texts(seed, thorough).into_iter().enumerate() {
         out.push(spec(t, if i % 4 == 0 { Some(i % 4) } else { None }, None, None, None, format!("unicode:{cat}")));
     }
+    out.extend(longclass(seed, thorough));
     // class patterns: 0 = digit, 1 = alphanumeric but not digit, 2 = other
     let reps: [&[u8]; 3] = [b"0189", b"AZ $%*+-./:", b"az,#_\x00\x7f\x80\xff;@[`"];
     let maxlen = if thorough { 8 } else { 6 };
@@ -267,6 +268,7 @@ pub fn total(seed: u64, thorough: bool) -> Vec<BuildSpec> {
         s.lite = !(thorough || n <= 60 || i % 16 == 0);
         out.push(s);
     }
+    out.extend(longclass(seed, thorough));
     // text-level contents (valid UTF-8 by Unicode category)
     for (i, (cat, t)) in unicode_texts(seed, thorough).into_iter().enumerate() {
         let mut s = spec(t, [None, Some(0), Some(3)][i % 3], None, [None, None, Some(1), Some(40)][i % 4], None, format!("unicode:{cat}"));
@@ -641,6 +643,31 @@ pub fn discovered(corpus: &str) -> Vec<BuildSpec> {
         let version = if o2 % 4 == 1 { Some([1usize, 2, 5, 9][(o2 as usize / 4) % 4]) } else { None };
         let mask = if o2 % 4 == 2 { Some((o2 as usize / 4) % 8) } else { None };
         out.push(spec(data[2..].to_vec(), ecl, mode, version, mask, format!("discovered:{}", mode.map_or(9, |m| m))));
+    }
+    out
+}
+
+/// Long strings of one class with ONE character of another class late in the string (at the capacities of the larger versions, where
+/// 'longer than the other mode can hold' arguments live): the mode is decided by every byte, wherever it is.
+pub fn longclass(seed: u64, thorough: bool) -> Vec<BuildSpec> {
+    let mut out = Vec::new();
+    for (base, odd, lens) in [(0usize, b'A', vec![2953usize, 2954, 3993, 4296, 4297, 5000, 5596, 5597, 7089]), (0, b'\n', vec![2331, 2953, 2954, 4296, 4297, 5596, 7089]), (1, b'a', vec![1273, 2953, 2954, 3391, 4296]), (1, b',', vec![1663, 2953, 4296])] {
+        for &len in &lens {
+            let mut positions: Vec<usize> = vec![0, 1, len / 2, len - 2, len - 1, 255, 256, 1023, 1024, 2047, 2048, 4095, 4096, 4295, 4296, 4297];
+            if thorough { positions.extend((0..len).step_by(61)); }
+            positions.retain(|&p| p < len); positions.sort(); positions.dedup();
+            for (pi, &pos) in positions.iter().enumerate() {
+                if !thorough && pi % 3 != (seed as usize + len) % 3 && pos + 2 < len { continue; }
+                let mut p = vec![if base == 0 { b'0' + ((pos + len) % 10) as u8 } else { ALNUM[10 + (pos + len) % 35] }; len];
+                p[pos] = odd;
+                for e in [Some(0usize), Some(1), None] {
+                    if !thorough && e == Some(1) && pi % 2 == 0 { continue; }
+                    let mut s = spec(p.clone(), e, None, None, Some(0), format!("longclass:{base}:{len}"));
+                    s.lite = true;
+                    out.push(s);
+                }
+            }
+        }
     }
     out
 }
